@@ -6,6 +6,7 @@
 #include <cstring>
 #include <cstdlib>
 #include <random>
+#include <unordered_map>
 #include <unistd.h>
 #include <sys/syscall.h>
 #include <linux/futex.h>
@@ -138,6 +139,7 @@ int Sched::run_pct(uint64_t seed, long maxsteps, int depth) {
     long low = 0;                         // next "below everybody" priority (decreasing)
     std::vector<int> idle(nt, 0);
     int rc; int last = -1; long streak = 0; long fair = 1500 + (long)(rng() % 1500);
+    std::unordered_map<const void*, int> last_toucher;
     for (;;) {
         while ((int)prio.size() < n()) { prio.push_back(1 + (long)(rng() % (uint64_t)(depth + nt + 1))); idle.push_back(0); }   // threads created by the code under test
         bool alldone = true; int best = -1; bool wbuf = false; int nrun = 0;
@@ -151,6 +153,13 @@ int Sched::run_pct(uint64_t seed, long maxsteps, int depth) {
         long before = last_change;
         // focus-biased change points: right after an access to a tracked (protocol) address the thread is pre-empted with probability 1/3
         bool focus_cp = budget > 0 && g_ntracked > 0 && lts[best]->pend.addr && is_tracked(lts[best]->pend.addr) && (rng() % 3) == 0;
+        // contention-biased change points (harnesses that track nothing): right after an access to a word that another thread touched last, the thread is
+        // pre-empted with probability 1/6 - races live around words that change hands
+        if (budget > 0 && g_ntracked == 0 && lts[best]->pend.addr && lts[best]->pend.kind <= K_CAS) {
+            auto it = last_toucher.find(lts[best]->pend.addr);
+            if (it != last_toucher.end() && it->second != best && (rng() % 6) == 0) focus_cp = true;
+            last_toucher[lts[best]->pend.addr] = best;
+        }
         step(best);
         if (focus_cp) { prio[best] = --low; --budget; }
         if (last_change != before || last_change == steps) idle[best] = 0; else if (++idle[best] >= 40) { prio[best] = --low; idle[best] = 0; }
